@@ -415,7 +415,7 @@ package intermediate
 //@   requires corrheld: forall i in [0, len(msgRecs(message))): forall k: has(a.flowKeyRecordMap, k) ==> corrOK(a, msgRecs(message)[i], a.flowKeyRecordMap[k].Record)
 //@   requires corrmsg: forall i in [0, len(msgRecs(message))): forall j in [0, len(msgRecs(message))): i != j ==> corrOK(a, msgRecs(message)[i], msgRecs(message)[j])
 //@   // what aggregation needs: a sane configuration, incoming records with the exporter's fields, held records with the aggregated fields
-//@   requires aggcfg:  cfg(a) != nil ==> statsLens(a) && statsNamesDistinct(a) && thrNamesDistinct(a)
+//@   requires aggcfg:  cfg(a) != nil ==> statsLens(a) && statsNamesDistinct(a) && thrNamesDistinct(a) && thrNamesDistinct2(a)
 //@   requires aggin:   cfg(a) != nil ==> (forall i in [0, len(msgRecs(message))): inFields(a, msgRecs(message)[i]))
 //@   requires aggheld: cfg(a) != nil ==> (forall k: has(a.flowKeyRecordMap, k) ==> exFields(a, a.flowKeyRecordMap[k].Record))
 //@   ensures  inv:  aggInv(a) && aggRetry(a)
@@ -435,7 +435,7 @@ package intermediate
 //@   loop 1 invariant ch4: forall i in [$i, len(msgRecs(message))): forall k: has(a.flowKeyRecordMap, k) ==> presentCF(a, msgRecs(message)[i], a.flowKeyRecordMap[k].Record)
 //@   loop 1 invariant corrmsg: forall i in [$i, len(msgRecs(message))): forall j in [$i, len(msgRecs(message))): i != j ==> corrOK(a, msgRecs(message)[i], msgRecs(message)[j])
 //@   loop 1 invariant cf: a.correlateFields == old(a.correlateFields) && cfg(a) == old(cfg(a))
-//@   loop 1 invariant aggcfg:  cfg(a) != nil ==> statsLens(a) && statsNamesDistinct(a) && thrNamesDistinct(a)
+//@   loop 1 invariant aggcfg:  cfg(a) != nil ==> statsLens(a) && statsNamesDistinct(a) && thrNamesDistinct(a) && thrNamesDistinct2(a)
 //@   loop 1 invariant aggin:   cfg(a) != nil ==> (forall i in [$i, len(msgRecs(message))): inFields(a, msgRecs(message)[i]))
 //@   loop 1 invariant aggheld: cfg(a) != nil ==> (forall k: has(a.flowKeyRecordMap, k) ==> exFields(a, a.flowKeyRecordMap[k].Record))
 
@@ -503,7 +503,7 @@ package intermediate
 //@     && kindU8(rex, "flowEndReason") && kindStr(rex, "tcpState") && kindStr(rex, "httpVals") && allNS(a, rex)
 //@ pure aggFields(a *AggregationProcess, rin entities.Record, rex entities.Record) bool = inFields(a, rin) && exFields(a, rex)
 //@ // aggOK: what aggregateRecords needs of the configuration, an incoming record and the record held for its flow
-//@ pure aggOK(a *AggregationProcess, rin entities.Record, rex entities.Record) bool = cfg(a) != nil ==> statsLens(a) && statsNamesDistinct(a) && thrNamesDistinct(a) && aggFields(a, rin, rex)
+//@ pure aggOK(a *AggregationProcess, rin entities.Record, rex entities.Record) bool = cfg(a) != nil ==> statsLens(a) && statsNamesDistinct(a) && thrNamesDistinct(a) && thrNamesDistinct2(a) && aggFields(a, rin, rex)
 
 //@ pure isDeltaName(n string) bool = contains(n, "Delta")
 //@ pure wrapSub64(x int) int = x < 0 ? x + 18446744073709551616 : x
@@ -525,6 +525,16 @@ package intermediate
 //@     u64v(recList(rex)[l]) == (isDeltaName(cfg(a).StatsElements[i]) ? u64v(recList(rex)[ln]) : max(old(u64v(recList(rex)[l])), u64v(recList(rin)[j])))
 //@ pure commonKept(a *AggregationProcess, rex entities.Record, i int, l int) bool =
 //@     0 <= i && i < len(cfg(a).StatsElements) && 0 <= l && l < len(recList(rex)) && isFirst(rex, cfg(a).StatsElements[i], l) ==> u64v(recList(rex)[l]) == old(u64v(recList(rex)[l]))
+//@ // throughput of the reporting node: 8 x the growth of its octet total / the growth of its end time since its previous record (the flow start for its first)
+//@ pure nodeThrName(a *AggregationProcess, t int, src bool) string = src ? cfg(a).SourceThroughputElements[t] : cfg(a).DestinationThroughputElements[t]
+//@ pure prevEnd(rin entities.Record, rex entities.Record, le int, js int) int = old(u32v(recList(rex)[le])) == 0 ? u32v(recList(rin)[js]) : old(u32v(recList(rex)[le]))
+//@ pure endGrowth(rin entities.Record, rex entities.Record, je int, le int, js int) int = (u32v(recList(rin)[je]) - prevEnd(rin, rex, le, js)) % 4294967296
+//@ pure timeIdx(rin entities.Record, rex entities.Record, src bool, je int, le int, js int) bool = 0 <= je && je < len(recList(rin)) && 0 <= le && le < len(recList(rex)) && 0 <= js && js < len(recList(rin))
+//@     && isFirst(rin, "flowEndSeconds", je) && isFirst(rex, nodeEndName(src), le) && isFirst(rin, "flowStartSeconds", js)
+//@ pure octIdx(a *AggregationProcess, rin entities.Record, rex entities.Record, src bool, i int, j int, l int, name string) bool = 0 <= i && i < len(cfg(a).StatsElements) && !isDeltaName(cfg(a).StatsElements[i])
+//@     && 0 <= j && j < len(recList(rin)) && 0 <= l && l < len(recList(rex)) && isFirst(rin, cfg(a).StatsElements[i], j) && isFirst(rex, nodeName(a, i, src), l) && nodeName(a, i, src) == name
+//@ pure thrVal(rin entities.Record, rex entities.Record, j int, l int, je int, le int, js int) int =
+//@     ((wrapSub64(u64v(recList(rin)[j]) - old(u64v(recList(rex)[l]))) * 8) % 18446744073709551616) / endGrowth(rin, rex, je, le, js)
 //@ // the record was skipped: no 64-bit counter of the aggregated record changed
 //@ pure allU64Kept(rex entities.Record) bool = forall l in [0, len(recList(rex))): dt(recList(rex)[l]) == Unsigned64 ==> u64v(recList(rex)[l]) == old(u64v(recList(rex)[l]))
 //@ // "increasing end times": the incoming record is later than the previous record of its node(s) (otherwise the code skips the record)
@@ -546,7 +556,16 @@ package intermediate
 //@                  u32v(recList(existingRecord)[l]) == max(old(u32v(recList(existingRecord)[l])), u32v(recList(incomingRecord)[j])))
 //@   // per reporting node, for every counter i0 (and the elements j0 / l0 that hold it): totals take the latest value, deltas are summed
 //@   // (no delta lost or double-counted), the other node's fields are untouched
-//@   given i0, j0, l0, lc0
+//@   given i0, j0, l0, lc0, je0, le0, js0, lt0
+//@   // throughput of the reporting node (one reporting node per call): forward from the octet total, reverse from the reverse octet total
+//@   ensures  thrfwd: cfg(a) != nil && err == nil && (fillSrcStats != fillDstStats) && len(cfg(a).ThroughputElements) > 0 && timeIdx(incomingRecord, existingRecord, fillSrcStats, je0, le0, js0)
+//@                  && octIdx(a, incomingRecord, existingRecord, fillSrcStats, i0, j0, l0, fillSrcStats ? "octetTotalCountFromSourceNode" : "octetTotalCountFromDestinationNode")
+//@                  && 0 <= lt0 && lt0 < len(recList(existingRecord)) && isFirst(existingRecord, nodeThrName(a, 0, fillSrcStats), lt0)
+//@                  ==> u64v(recList(existingRecord)[lt0]) == thrVal(incomingRecord, existingRecord, j0, l0, je0, le0, js0) || allU64Kept(existingRecord)
+//@   ensures  thrrev: cfg(a) != nil && err == nil && (fillSrcStats != fillDstStats) && len(cfg(a).ThroughputElements) > 1 && timeIdx(incomingRecord, existingRecord, fillSrcStats, je0, le0, js0)
+//@                  && octIdx(a, incomingRecord, existingRecord, fillSrcStats, i0, j0, l0, fillSrcStats ? "reverseOctetTotalCountFromSourceNode" : "reverseOctetTotalCountFromDestinationNode")
+//@                  && 0 <= lt0 && lt0 < len(recList(existingRecord)) && isFirst(existingRecord, nodeThrName(a, 1, fillSrcStats), lt0)
+//@                  ==> u64v(recList(existingRecord)[lt0]) == thrVal(incomingRecord, existingRecord, j0, l0, je0, le0, js0) || allU64Kept(existingRecord)
 //@   // the common counters follow the reporter of the latest end time (here: exactly one reporting node per call)
 //@   ensures  common: cfg(a) != nil && err == nil && (fillSrcStats != fillDstStats) ==> commonStat(a, incomingRecord, existingRecord, i0, j0, lc0, l0, fillSrcStats) || commonKept(a, existingRecord, i0, lc0)
 //@   // either the record is merged (per-node counters as specified) or it is skipped entirely (the code skips a record whose end time is
@@ -559,9 +578,11 @@ package intermediate
 //@            recList(existingRecord)[*].(*Unsigned32InfoElement).value, recList(existingRecord)[*].(*Unsigned64InfoElement).value,
 //@            recList(existingRecord)[*].(*DateTimeSecondsInfoElement).value
 //@   loop 1 invariant cnt:  0 <= $i && $i <= len(cfg(a).NonStatsElements) && (flowEndSecondsDiff > 0)
+//@   loop 1 invariant dd:   (fillSrcStats != fillDstStats) && timeIdx(incomingRecord, existingRecord, fillSrcStats, je0, le0, js0) ==> flowEndSecondsDiff == endGrowth(incomingRecord, existingRecord, je0, le0, js0)
 //@   loop 1 invariant end:  forall j in [0, len(recList(incomingRecord))): forall l in [0, len(recList(existingRecord))): isFirst(incomingRecord, "flowEndSeconds", j) && isFirst(existingRecord, "flowEndSeconds", l) ==>
 //@                  u32v(recList(existingRecord)[l]) == max(old(u32v(recList(existingRecord)[l])), u32v(recList(incomingRecord)[j]))
 //@   loop 2 invariant cnt:  0 <= $i && $i <= len(statsElementList) && statsElementList == cfg(a).StatsElements && antreaSourceStatsElements == cfg(a).AggregatedSourceStatsElements && antreaDestinationStatsElements == cfg(a).AggregatedDestinationStatsElements
+//@   loop 2 invariant dd:   (fillSrcStats != fillDstStats) && timeIdx(incomingRecord, existingRecord, fillSrcStats, je0, le0, js0) ==> flowEndSecondsDiff == endGrowth(incomingRecord, existingRecord, je0, le0, js0)
 //@   loop 2 invariant end:  forall j in [0, len(recList(incomingRecord))): forall l in [0, len(recList(existingRecord))): isFirst(incomingRecord, "flowEndSeconds", j) && isFirst(existingRecord, "flowEndSeconds", l) ==>
 //@                  u32v(recList(existingRecord)[l]) == max(old(u32v(recList(existingRecord)[l])), u32v(recList(incomingRecord)[j]))
 //@   loop 2 invariant nz:   flowEndSecondsDiff > 0
@@ -581,12 +602,21 @@ package intermediate
 //@   loop 2 invariant srctodo: !fillSrcStats || i0 >= $i ==> nodeStatKept(a, existingRecord, i0, l0, true)
 //@   loop 2 invariant dsttodo: !fillDstStats || i0 >= $i ==> nodeStatKept(a, existingRecord, i0, l0, false)
 //@   loop 3 invariant cnt:  0 <= $i && $i <= len(antreaThroughputElements) && antreaThroughputElements == cfg(a).ThroughputElements && antreaSourceThroughputElements == cfg(a).SourceThroughputElements && antreaDestinationThroughputElements == cfg(a).DestinationThroughputElements
+//@   loop 3 invariant fwd:  (fillSrcStats != fillDstStats) && octIdx(a, incomingRecord, existingRecord, fillSrcStats, i0, j0, l0, fillSrcStats ? "octetTotalCountFromSourceNode" : "octetTotalCountFromDestinationNode")
+//@                  ==> totalCountDiff == wrapSub64(u64v(recList(incomingRecord)[j0]) - old(u64v(recList(existingRecord)[l0])))
+//@   loop 3 invariant thr0: (fillSrcStats != fillDstStats) && $i > 0 && 0 <= lt0 && lt0 < len(recList(existingRecord)) && isFirst(existingRecord, nodeThrName(a, 0, fillSrcStats), lt0)
+//@                  ==> u64v(recList(existingRecord)[lt0]) == (totalCountDiff * 8) % 18446744073709551616 / flowEndSecondsDiff
+//@   loop 3 invariant rev:  (fillSrcStats != fillDstStats) && octIdx(a, incomingRecord, existingRecord, fillSrcStats, i0, j0, l0, fillSrcStats ? "reverseOctetTotalCountFromSourceNode" : "reverseOctetTotalCountFromDestinationNode")
+//@                  ==> reverseTotalCountDiff == wrapSub64(u64v(recList(incomingRecord)[j0]) - old(u64v(recList(existingRecord)[l0])))
+//@   loop 3 invariant thr1: (fillSrcStats != fillDstStats) && $i > 1 && 0 <= lt0 && lt0 < len(recList(existingRecord)) && isFirst(existingRecord, nodeThrName(a, 1, fillSrcStats), lt0)
+//@                  ==> u64v(recList(existingRecord)[lt0]) == (reverseTotalCountDiff * 8) % 18446744073709551616 / flowEndSecondsDiff
 //@   loop 3 invariant comdone: isLatest && (fillSrcStats != fillDstStats) ==> commonStat(a, incomingRecord, existingRecord, i0, j0, lc0, l0, fillSrcStats)
 //@   loop 3 invariant comkept: !isLatest ==> commonKept(a, existingRecord, i0, lc0)
 //@   loop 3 invariant srcdone: fillSrcStats ==> nodeStat(a, incomingRecord, existingRecord, i0, j0, l0, true)
 //@   loop 3 invariant dstdone: fillDstStats ==> nodeStat(a, incomingRecord, existingRecord, i0, j0, l0, false)
 //@   loop 3 invariant srckept: !fillSrcStats ==> nodeStatKept(a, existingRecord, i0, l0, true)
 //@   loop 3 invariant dstkept: !fillDstStats ==> nodeStatKept(a, existingRecord, i0, l0, false)
+//@   loop 3 invariant dd:   (fillSrcStats != fillDstStats) && timeIdx(incomingRecord, existingRecord, fillSrcStats, je0, le0, js0) ==> flowEndSecondsDiff == endGrowth(incomingRecord, existingRecord, je0, le0, js0)
 //@   loop 3 invariant end:  forall j in [0, len(recList(incomingRecord))): forall l in [0, len(recList(existingRecord))): isFirst(incomingRecord, "flowEndSeconds", j) && isFirst(existingRecord, "flowEndSeconds", l) ==>
 //@                  u32v(recList(existingRecord)[l]) == max(old(u32v(recList(existingRecord)[l])), u32v(recList(incomingRecord)[j]))
 
